@@ -14,7 +14,7 @@ Definition render_spec (spec : bytes) : option bytes :=
   match split_on 58 spec with      (* ':' *)
   | [ty; val] =>
     if existsb (beq ty) [b "s"; b "S"; b "c"; b "cb"] then Some (escape_argument (unhex val))
-    else if beq ty (b "r") then Some (unhex val)
+    else if beq ty (b "r") || beq ty (b "t") then Some (unhex val)      (* r: a user-defined verbatim renderer; t: a hand-made Tag::Other, which renders its text verbatim too *)
     else if beq ty (b "b") then Some (if beq val (b "1") then [49] else [48])
     else if existsb (beq ty) [b "u8"; b "u16"; b "u32"; b "u64"; b "usize"] then Some (render_dec (read_N val))
     else None
